@@ -411,9 +411,10 @@ _CACHE = {}
 
 def evaluate(prog, fn):
     """-> FragDomain after interpreting the public method `fn` with symbolic parameters."""
-    key = (id(prog), fn.qualname)
-    if key in _CACHE:
-        return _CACHE[key]
+    cache = prog.__dict__.setdefault("_wire_cache", {})
+    key = fn.qualname
+    if key in cache:
+        return cache[key]
     ex = exchange_names(prog)
     dom = FragDomain(prog, fn, ex)
     env = {}
@@ -428,7 +429,7 @@ def evaluate(prog, fn):
             env[p.name] = P(p.name)
     outs = Interp(dom, fn.node, prog).run(Env(env))
     dom.outs = outs
-    _CACHE[key] = dom
+    cache[key] = dom
     return dom
 
 
